@@ -22,12 +22,14 @@ Check(prop, what, cond) == cond \/ Report(prop, what)
 InDoc(ln, ch) == ln >= 0 /\ ln < Len(T.lines) /\ ch >= 0 /\ ch <= T.lines[ln + 1]
 NotBefore(sl, sc, el, ec) == el > sl \/ (el = sl /\ ec >= sc)
 O == T.obs
+Unspec == "unspec" \in DOMAIN T /\ T.unspec
 C14_Total ==
   /\ Check("C14", "the parser panicked", O.panic = "")
   /\ Check("C14", "the parser did not terminate", ~O.timeout)
   /\ Check("C14", "rendering the errors against the source panicked", O.showpanic = "")
-  /\ Check("C14", "a syntactically valid script was reported with errors", (O.panic = "" /\ ~O.timeout /\ T.lexok /\ T.accepts) => O.nerr = 0)
-  /\ Check("C14", "an input outside the language was accepted without any error", (O.panic = "" /\ ~O.timeout /\ T.lexok /\ ~T.accepts) => O.nerr > 0)
+  /\ Check("C14", "a syntactically valid script was reported with errors", (O.panic = "" /\ ~O.timeout /\ ~Unspec /\ T.accepts) => O.nerr = 0)
+  /\ Check("C14", "an input outside the language (characters no token starts with, or tokens that form no program) was accepted without any error",
+           (O.panic = "" /\ ~O.timeout /\ ~Unspec /\ ~T.accepts) => O.nerr > 0)
   /\ Check("C14", "a reported error starts outside the text",
            (O.panic = "" /\ ~O.timeout) => \A i \in 1..Len(O.errs) : InDoc(O.errs[i][1], O.errs[i][2]))
 C18_Survives ==
